@@ -14,15 +14,17 @@ EXPLANATION = (
     "Finite-domain specialisation of FitInfo.keep over the selector letters {A,N,C,D,E,F}, an unknown letter and the empty result "
     "(exhaustive): (ALG-11) the number of fits kept is len(chi2) / int(n) / #[chi2<v] / #[chi2-chi2[0]<v] / #[chi2/n_data<v] / "
     "#[(chi2-chi2[0])/n_data<v], where n_data is the source's count of flags 1 and 4 (ALG-12); an unknown letter raises; an empty result keeps 0. "
+    "(ALG-11x) the same four criteria on infinite / NaN chi2 and on n_data == 0, where polynomial identities do not apply (inf - inf, x / 0): the expression tree the code "
+    "evaluates is compared with the syntax page's over classes of IEEE values (17 class assignments per letter). "
     "(PERM-2) every per-fit attribute (the record's state keys other than the source) is cut by the same prefix slice [:n_fits] (lower bound 0, "
     "step 1). The criterion reads only chi2, chi2[0], source.n_data and the threshold, so with an ascending ranking each criterion is monotone in "
     "rank and prefix cuts commute (keep o keep = keep; looser-then-tighter = tighter) - lemma stated, premises checked.")
-NOT_DECIDED = ["behaviour at chi2 exactly equal to the threshold (excluded by the quantifier)", "placement of NaN by argsort/comparisons (library)",
+NOT_DECIDED = ["behaviour at chi2 exactly equal to the threshold (excluded by the quantifier)", "placement of NaN by argsort (library); floating-point overflow of finite values",
                "min(n, total) for ('N', n) relies on python slice semantics a[:n] for n > len(a) (language fact)"]
 ASSUMPTIONS = ["<= and < identified (no exact ties with the threshold)", "the record was ranked ascending (C04)"]
 TRUSTED = ["python ast", "sedlint E4/E5", "python slice semantics"]
-MIN = {'ALG-11': 8, 'PERM-2': 6, 'ALG-12': 2}
-TECHNIQUE = 'static analysis: finite-domain specialisation of AST value numbering over the selector letters; coherence set of the prefix cut'
+MIN = {'ALG-11': 8, 'ALG-11x': 4, 'PERM-2': 6, 'ALG-12': 2}
+TECHNIQUE = 'static analysis: finite-domain specialisation of AST value numbering over the selector letters; abstract evaluation of the criterion tree over IEEE value classes; coherence set of the prefix cut'
 
 VOCAB = {'av', 'sc', 'chi2', 'model_name', 'model_fluxes', 'model_id', 'number', 'valid'}
 
@@ -68,6 +70,58 @@ def reference_count(letter):
     if letter == 'F':
         return sum_over(lt((chi2 - chi0) / nd, v), R)
     raise KeyError(letter)
+
+
+def reference_tree(letter):
+    """the criterion of the syntax page as an expression tree over the leaves chi2[r], chi2[0], threshold, n_data"""
+    c = ('leaf', sym('chi2', R))
+    b = ('leaf', mk_fn('at', B(R, sym('chi2', R)), P(Poly())))
+    v = ('leaf', sym('number'))
+    n = ('leaf', n_data_ref())
+    d = ('bin', 'Sub', c, b)
+    return {'C': ('cmp', 'LtE', c, v), 'D': ('cmp', 'LtE', d, v), 'E': ('cmp', 'LtE', ('bin', 'Div', c, n), v), 'F': ('cmp', 'LtE', ('bin', 'Div', d, n), v)}[letter]
+
+
+def check_nonfinite(ctx, letter, I, n, where):
+    """(ALG-11x) the criterion on infinite / NaN chi^2 and on a source without data points: decided on the expression tree the code evaluates, over classes
+    of IEEE values (xreal.py) - the quantifier names infinity and NaN, and polynomial identities do not see inf - inf or x / 0."""
+    from .. import xreal
+    inst = "selector '%s' on infinite / NaN chi2 and n_data == 0" % letter
+    trees = [t for p, kind, t in I.xr_log if kind == 'sum' and p == n]
+    if not trees:
+        ctx.ok('ALG-11x', inst, where, 'not evaluated: the count is not a sum over a comparison tree', nontrivial=False)
+        return
+    code, ref = trees[-1], reference_tree(letter)
+    known = [(sym('chi2', R), 'c'), (mk_fn('at', B(R, sym('chi2', R)), P(Poly())), 'b'), (sym('number'), 'v'), (n_data_ref(), 'n')]
+    for lf in xreal.leaves(code):
+        if not any(lf == q for q, _ in known):
+            ctx.ok('ALG-11x', inst, where, 'not evaluated: the criterion reads %s, which has no value class here' % alg.show(lf, 60), nontrivial=False)
+            return
+    order = {'zero': 0, 'pos': 1, 'pinf': 2}
+    diffs, n_assign = [], 0
+    for cc in ('zero', 'pos', 'pinf', 'nan'):
+        for bc in ('zero', 'pos', 'pinf', 'nan'):
+            if bc == 'nan' and cc != 'nan':
+                continue              # NaN sorts last: a NaN best fit means every fit is NaN
+            if bc != 'nan' and cc != 'nan' and order[bc] > order[cc]:
+                continue              # the best chi2 is the smallest
+            for nc in ('zero', 'pos'):
+                classes = {'c': cc, 'b': bc, 'v': 'pos', 'n': nc}
+                if not ({cc, bc} & xreal.SPECIAL or nc == 'zero'):
+                    continue
+                con = (lambda vals: vals['b'] <= vals['c']) if (cc in order and bc in order) else None
+                try:
+                    so, sr = xreal.outcomes(code, known, classes, con), xreal.outcomes(ref, known, classes, con)
+                except KeyError as e:
+                    ctx.ok('ALG-11x', inst, where, 'not evaluated: operator %s' % e, nontrivial=False)
+                    return
+                n_assign += 1
+                if len(so) == 1 and len(sr) == 1 and so != sr:
+                    names = {'zero': '0', 'pos': 'finite', 'pinf': '+inf', 'nan': 'NaN'}
+                    diffs.append('chi2 %s, best chi2 %s, n_data %s: the syntax page %s the fit, the code %s it' % (names[cc], names[bc], '0' if nc == 'zero' else '> 0',
+                                 'keeps' if True in sr else 'drops', 'keeps' if True in so else 'drops'))
+    ctx.expect(not diffs, 'ALG-11x', inst, where, 'the criterion the code evaluates agrees with the syntax page on all %d class assignments with an infinite / NaN chi2 or n_data == 0' % n_assign,
+               '; '.join(diffs[:3]), 'nonfinite')
 
 
 def make_info(repo, per_fit, shapes):
@@ -134,6 +188,7 @@ def run(ctx):
         ctx.ok('ALG-12', 'n_data follows the flag array', loc(ndg), 'the source keeps a private copy of the flags and hands out copies', nontrivial=False)
     for letter in ('A', 'N', 'C', 'D', 'E', 'F'):
         I = Interp(repo, KeepHooks(False))
+        I.track_xr = True
         info = make_info(repo, per_fit, shapes)
         out = I.call(keep, [(letter, scalar(sym('number'), num(1)))], selfv=info)
         ref = reference_count(letter)
@@ -150,6 +205,8 @@ def run(ctx):
         n = ns[0]
         compare(ctx, 'ALG-11', "selector '%s' count" % letter, where, Arr((), n), ref, (), vocab=VOCAB, findings=I.findings,
                 detail_ok='n_fits == %s' % alg.show(ref, 140))
+        if letter in 'CDEF':
+            check_nonfinite(ctx, letter, I, n, where)
         syms, _ = alg.leaf_syms(n)
         ctx.expect(syms <= {'chi2', 'valid', 'number'}, 'ALG-11', "selector '%s' reads only chi2, n_data and the threshold" % letter, where,
                    'criterion depends on %s' % sorted(syms), 'criterion depends on %s' % sorted(syms), 'criterion-inputs')
@@ -191,6 +248,8 @@ def run(ctx):
 FI = 'sedfitter/fit_info.py'
 SO = 'sedfitter/source/source.py'
 MUST_FIRE = [
+    ('D rewritten as chi2 <= chi2[0] + v (keeps infinite fits when the best is infinite)', [(FI, "n_fits = np.sum(self.chi2 - self.chi2[0] <= number)", "n_fits = np.sum(self.chi2 <= self.chi2[0] + number)")]),
+    ('E rewritten as chi2 <= v * n_data (keeps zero chi2 of a source without data)', [(FI, "n_fits = np.sum((self.chi2 / self.source.n_data) <= number)", "n_fits = np.sum(self.chi2 <= number * self.source.n_data)")]),
     ('n_data remembered from the assignment of the flags', [(SO, "                    self._valid = value\n", "                    self._valid = value\n                    self._n_data = np.sum((value == 1) | (value == 4))\n"),
                                                             (SO, "        return np.sum((self.valid == 1) | (self.valid == 4))", "        return self._n_data")]),
     ('D uses chi2[-1]', [(FI, "n_fits = np.sum(self.chi2 - self.chi2[0] <= number)", "n_fits = np.sum(self.chi2 - self.chi2[-1] <= number)")]),
